@@ -50,11 +50,21 @@ fn fwd(op: &Op, _ctx: &dyn Context, operands: &mut dyn CoordinateSet) -> usize {
         let (sin_lam_p, cos_lam_p) = lam_p.sin_cos();
         let (sin_phi_p, cos_phi_p) = phi_p.sin_cos();
 
-        let phi_pp = (cos_phi_0_p * sin_phi_p - sin_phi_0_p * cos_phi_p * cos_lam_p).asin();
-        let lam_pp = (cos_phi_p * sin_lam_p / phi_pp.cos()).asin();
+        // (close to the poles, rounding may take the arguments of asin slightly beyond +/-1)
+        let phi_pp = (cos_phi_0_p * sin_phi_p - sin_phi_0_p * cos_phi_p * cos_lam_p)
+            .clamp(-1., 1.)
+            .asin();
+        let lam_pp = (cos_phi_p * sin_lam_p / phi_pp.cos()).clamp(-1., 1.).asin();
 
         let x = R * lam_pp + x_0;
         let y = R * (FRAC_PI_4 + 0.5 * phi_pp).tan().ln() + y_0;
+
+        // Beyond the poles, the logarithm of a negative number: The point has no
+        // image (while a NaN coordinate just propagates, as everywhere else)
+        if (x.is_nan() || y.is_nan()) && !(lam.is_nan() || phi.is_nan()) {
+            operands.set_xy(i, f64::NAN, f64::NAN);
+            continue;
+        }
 
         operands.set_xy(i, x, y);
         successes += 1;
@@ -93,9 +103,10 @@ fn inv(op: &Op, _ctx: &dyn Context, operands: &mut dyn CoordinateSet) -> usize {
         let lam_pp = X / R;
 
         let sin_phi_p = cos_phi_0_p * phi_pp.sin() + sin_phi_0_p * phi_pp.cos() * lam_pp.cos();
-        let phi_p = sin_phi_p.asin();
+        // (close to the poles, rounding may take the arguments of asin slightly beyond +/-1)
+        let phi_p = sin_phi_p.clamp(-1., 1.).asin();
         let sin_lam_p = (phi_pp.cos() * lam_pp.sin()) / phi_p.cos();
-        let lam_p = sin_lam_p.asin();
+        let lam_p = sin_lam_p.clamp(-1., 1.).asin();
 
         let C = ((FRAC_PI_4 + 0.5 * phi_p).tan().ln() - K) / c;
 
